@@ -384,8 +384,11 @@ def run(ctx):
         progs = [gen_comp.gen_program(ctx.rng, allow_pow=False, allow_array=False), gen_comp.gen_program(ctx.rng, allow_pow=False, allow_array=False)]
         one_case(ctx, progs)
     same_named_classes(ctx)
-    for _ in range(ctx.n(50, 900)):  # tree refinement: the Lean model holds and edits the compositions
+    for _ in range(ctx.n(40, 900)):  # tree refinement: the Lean model holds and edits the compositions
         tree_case(ctx, [gen_comp.gen_program(ctx.rng, allow_pow=False, allow_array=False), gen_comp.gen_program(ctx.rng, allow_pow=False, allow_array=False)])
+    for _ in range(ctx.n(40, 600)):  # the recursion cache as a state machine with exceptions
+        reccache_case(ctx)
+    reccache_process_wide(ctx)
 
 
 def same_named_classes(ctx):
@@ -756,10 +759,99 @@ def common_f2h(x):
     return f2h(x)
 
 
+# ---------------------------------------------------------------------------------------------
+# the process-wide recursion cache (lean/AFModel/RecCache.lean)
+
+
+def reccache_gen(rng, depth=0, anc=()):
+    id_ = rng.choice(anc) if anc and rng.random() < 0.2 else rng.randrange(1, 9)
+    n = {"id": id_, "raises": rng.random() < (0.12 if depth else 0.05), "children": []}
+    if depth < 3:
+        for _ in range(rng.randint(0, 3)):
+            n["children"].append(reccache_gen(rng, depth + 1, anc + (id_,)))
+    return n
+
+
+def reccache_case(ctx, calls=None, label="reccache"):
+    """walks that recurse, meet cycles and raise, through the library's `DynamicRecursionCache` wrapper"""
+    from autofit.mapper.prior_model.recursion import DynamicRecursionCache, RecursionPromise
+    rng = ctx.rng
+    if calls is None:
+        calls = [reccache_gen(rng) for _ in range(rng.randint(1, 5))]
+
+    class Item:
+        def __init__(self, tag):
+            self.tag = tag
+
+    items = {i: Item(i) for i in range(0, 10)}
+    tag_of = {id(o): t for t, o in items.items()}
+    rc = DynamicRecursionCache()
+    trace = []
+
+    @rc
+    def walk(item, spec):
+        trace.append(item.tag)
+        got = [walk(items[ch["id"]], ch) for ch in spec["children"]]
+        if spec["raises"]:
+            raise RuntimeError("scripted failure")
+        return [item.tag, len(got)]
+
+    case = {"calls": calls, "label": label}
+    outs, left = [], []
+    for c in calls:
+        try:
+            r = walk(items[c["id"]], c)
+            outs.append("promise" if isinstance(r, RecursionPromise) else "ok")
+        except RuntimeError:
+            outs.append("raised")
+        left.append(sorted(tag_of.get(k, -1) for k in rc.cache))
+    ans = ctx.lean.ask({"p": "C13", "mode": "reccache", "calls": calls})
+    if "driver_error" in ans:
+        ctx.disagree("driver", case, None, ans)
+        return
+    size = lambda n: 1 + sum(size(ch) for ch in n["children"])  # noqa
+    ctx.case({"calls": calls}, nontrivial="raised" in outs and sum(size(c) for c in calls) >= 4,
+             sample={"reccache": True, "outs": outs, "trace": trace[:20]})
+    ctx.hit("reccache:" + "+".join(sorted(set(outs))))
+    # ---- oracle: no entry of a finished call is left; a top-level call is never answered by a placeholder
+    if any(left) or "promise" in outs:
+        ctx.fail("C13-recursion-cache-entry-left", "the process-wide recursion cache keeps the entry of a finished (failed) call: a later walk of that object is answered with a placeholder",
+                 case, {"left": left, "outs": outs})
+    # ---- tie
+    if outs != ans["outs"] or left[-1] != sorted(ans["cache"]) or trace != ans["trace"]:
+        ctx.disagree("C13.reccache", case, {"outs": outs, "cache": left[-1], "trace": trace}, ans)
+
+
+def reccache_process_wide(ctx):
+    """the library's own instances (closures of the decorated functions) hold nothing between calls"""
+    import autofit.mapper.model as mm
+    import autofit.mapper.prior_model.abstract as ab
+    from autofit.mapper.prior_model.recursion import DynamicRecursionCache
+    found = 0
+    for mod in (mm, ab):
+        for name, f in vars(mod).items():
+            for cell in (getattr(f, "__closure__", None) or ()):
+                try:
+                    v = cell.cell_contents
+                except ValueError:
+                    continue
+                if isinstance(v, DynamicRecursionCache):
+                    found += 1
+                    if v.cache:
+                        ctx.fail("C13-recursion-cache-entry-left", "the process-wide recursion cache holds an entry although no walk is in progress",
+                                 {"label": "reccache-process-wide", "function": name}, {"entries": len(v.cache)})
+    ctx.hit("reccache:process-wide-instances:%d" % found)
+
+
 def replay(ctx, payload):
     case = payload.get("case") or payload.get("disagreements", [{}])[0].get("case")
     if case.get("label") == "same-named-classes":
         return same_named_classes(ctx)
+    if case.get("label") == "reccache-process-wide":
+        run(ctx)
+        return
+    if "calls" in case:
+        return reccache_case(ctx, calls=case["calls"], label="replay")
     if "tree_ops" in case:
         return tree_case(ctx, case["programs"], label="replay", script=case["tree_ops"])
     one_case(ctx, case["programs"], label="replay", script={"setup": case["setup"], "ops": case["ops"]})
